@@ -668,8 +668,13 @@ func (c *Ctx) checkSingleSignal(r *Result, fn *ssa.Function, wait ssa.Instructio
 		if u, ok := cond.(*ssa.UnOp); ok && u.Op == token.NOT {
 			cond = u.X
 		}
-		if k, _ := fieldLoadKey(cond); k != "" && len(li.at[in]) > 0 {
-			tested, testIn = k, in
+		if k, _ := fieldLoadKey(cond); k != "" {
+			if len(li.at[in]) > 0 {
+				tested, testIn = k, in
+			} else if ld, isI := stripConv(cond).(ssa.Instruction); isI && len(li.at[ld]) > 0 {
+				// swap idiom: was := flag; flag = false; unlock; if !was { return } - the test uses the value read under the lock
+				tested, testIn = k, ld
+			}
 		}
 	})
 	if tested == "" {
